@@ -44,7 +44,8 @@ Theorem C08_code_shape_as_modelled :
   (lock_selects_with_ctx = lock_selects /\ 0 < lock_selects) /\
   lock_stale_branch_removes_and_retries = true /\ lock_uses_one_file_name = true /\
   lock_stale_ref_updated_else_created = true /\ lock_empty_count_resets = true /\
-  lock_empty_mtime_guard = true /\ lock_empty_mtime_factor = lock_stale_factor.
+  lock_empty_mtime_guard = true /\ lock_empty_mtime_factor = lock_stale_factor /\
+  lock_undecodable_as_empty = true.
 Proof. repeat split; reflexivity. Qed.
 Print Assumptions C08_code_shape_as_modelled.
 
@@ -172,6 +173,27 @@ Proof.
   exact (HBInv_reach (cfg_repo d) (repo_checks d) (repo_good d Hd) any_label s0 R).
 Qed.
 Print Assumptions C08_empty_recovers.
+
+(** A lock file whose contents cannot be decoded (cut off in the middle of a write, corrupt)
+    is handled like an empty one: every read counts, and past the retry limit it is treated
+    as stale once it has not been modified for factor * interval - Lock no longer returns an
+    error that nobody can recover from. *)
+Theorem C08_undecodable_like_empty : forall d s w ec i,
+  file s = Some i -> content s i = FGarbage -> cs s w = CExists ec ->
+  exists s1, step (cfg_repo d) s (LOpenRead w) = Some s1 /\
+    cs s1 w = if (S ec <? retries (cfg_repo d))%nat ||
+                 negb (lock_stale_factor * lock_freshness_interval <? now s - mtime s i)
+              then CSleep (S ec) (now s + esleep (cfg_repo d)) else CStale (S ec).
+Proof.
+  intros d s w ec i Hf Hc Hw. cbn [step]. rewrite Hw, Hf, Hc. cbn [undec cfg_repo cfg_repo_eps].
+  change lock_undecodable_as_empty with true. cbn iota.
+  match goal with |- context [if ?b then _ else _] => destruct b eqn:E end;
+    eexists; (split; [reflexivity|]); cbn [cs set_cs]; rewrite upd_eq;
+    cbn [guard retries factor interval cfg_repo cfg_repo_eps] in E |- *;
+    change (lock_empty_mtime_guard && (lock_empty_mtime_factor =? lock_stale_factor)) with true in E;
+    cbn [andb] in E; rewrite E; reflexivity.
+Qed.
+Print Assumptions C08_undecodable_like_empty.
 
 (** The bounded time: in every state of every run (kills included) a Lock call that sleeps is
     due to look at the lock file again within max(fileLockPollInterval, empty-retry sleep) =
